@@ -321,7 +321,6 @@ Proof.
     apply Nat.eqb_eq in Hn2. split; assumption.
   - unfold scal_typed. destruct (flookup MemLimit (r_scal (a_res a))) as [[z|b|s']|]; try exact I; discriminate.
   - split; [|exact Hck]. intros x Hx. rewrite forallb_forall in Hce. specialize (Hce x Hx). unfold env_entry_ok in Hce.
-    destruct (cut "="%char x) as [k [v|]]; [|discriminate]. exists k, v. split; [reflexivity|].
     apply negb_true_iff in Hce. apply String.eqb_neq in Hce. exact Hce.
 Qed.
 
@@ -657,6 +656,16 @@ Theorem gen_frame_b s a :
   (a_oom a = None -> c_oom c' = c_oom c).
 Proof. intros H. apply gen_frame, wf_gen_props, H. Qed.
 
+(* ---------- the environment as a LIST (positions) ---------- *)
+Theorem gen_env_exact_b s a :
+  wf_gen s a = true ->
+  c_env (sp_c (gen_adjust a s)) = env_expected (a_env a) (c_env (sp_c s)) /\
+  filter (env_unnamed (a_env a)) (c_env (sp_c (gen_adjust a s))) = filter (env_unnamed (a_env a)) (c_env (sp_c s)).
+Proof.
+  intros Hwf. apply wf_gen_props in Hwf. destruct Hwf as [Hm He Hn Hd Hs Ht Hce Hcm Hcd Hch].
+  rewrite gen_adjust_c. cbv zeta. cbn [c_env]. split; [apply gen_env_exact|apply gen_env_unnamed]; assumption.
+Qed.
+
 (* ---------- the run-time predicate of Run/RunAdapt.v, evaluated on the MODEL's result, holds for all inputs ---------- *)
 Theorem gen_holds_C13 s a :
   wf_gen s a = true -> Forall dest_ok (c_mounts (sp_c s)) -> Forall dest_ok (r_adds m_dest (a_mounts a)) ->
@@ -684,9 +693,10 @@ Let a_sc sc hp := with_a_res adj_empty {| r_scal := sc; r_hp := hp; r_uni := [] 
 
 Definition wf_witnesses : list (string * (spec * adjustment)) :=
   [ (* W3, environment *)
-    ("existing entry without '=' is dropped", (sp (with_c_env c_ ["FOO"]), with_a_env adj_empty [("A", "1")]));
     ("existing duplicate variable: the last one wins", (sp (with_c_env c_ ["A=1"; "A=2"]), with_a_env adj_empty [("B", "x")]));
     ("existing entry with an empty name is dropped", (sp (with_c_env c_ ["=1"]), with_a_env adj_empty [("B", "x")]));
+    ("existing bare entry and variable of one name: the later one overwrites the set",
+     (sp (with_c_env c_ ["FOO"; "FOO=2"]), with_a_env adj_empty [("FOO", "9")]));
     (* the adjustment's environment *)
     ("a set of the empty name is ignored", (sp (with_c_env c_ ["A=1"]), with_a_env adj_empty [("", "x")]));
     ("a name containing '='", (sp (with_c_env c_ ["A=0"]), with_a_env adj_empty [("A=B", "c"); ("A", "1")]));
